@@ -23,10 +23,18 @@ def main():
         name = args.pop(0)[7:]
     if args and args[0].startswith("--meta="):
         agent_meta = args.pop(0)[7:]
+    confirm_only = use_confirm = None
+    if args and args[0] == "--confirm-only":
+        confirm_only = args.pop(0)
+    if args and args[0].startswith("--use-confirm="):
+        use_confirm = args.pop(0)[14:]
     checks = args
     res = {"patch": patch, "demo": demo}
+    if use_confirm:
+        res.update(json.load(open(use_confirm)))
+        return phase2(res, patch, demo, name, agent_meta, checks)
     wt = "/tmp/confirm-%d" % os.getpid()
-    sh("git -C /repo worktree add -f %s HEAD" % wt)
+    sh("git -C /repo worktree add -f --detach %s HEAD" % wt)
     try:
         first = open(demo).readline()
         m = re.search(r"place in:\s*(\S+)", first)
@@ -54,6 +62,12 @@ def main():
             res["suite_log"] = outb[-1500:]
     finally:
         sh("git -C /repo worktree remove --force %s" % wt)
+    if confirm_only:
+        print(json.dumps(res)); return 0
+    return phase2(res, patch, demo, name, agent_meta, checks)
+
+
+def phase2(res, patch, demo, name, agent_meta, checks):
     if not (res.get("demo_passes_without") and res.get("demo_fails_with") and res.get("suite_passes_with")):
         print(json.dumps(res)); return 1
     # run the checks against /repo with the mutation applied
@@ -65,7 +79,8 @@ def main():
     try:
         for c in checks:
             t0 = time.time()
-            rc, out = sh("./check %s --tier quick" % c, cwd="/verif", timeout=3000)
+            cid, _, tier = c.partition(":")
+            rc, out = sh("./check %s --tier %s" % (cid, tier or "quick"), cwd="/verif", timeout=7200)
             viol = [l for l in out.split("\n") if l.startswith("VIOLATION")]
             res["checks"][c] = {"exit": rc, "violations": viol[:3], "wall": round(time.time() - t0, 1),
                                 "tail": [l for l in out.split("\n") if l.startswith("[violation]")][:2]}
@@ -95,7 +110,7 @@ def seed(name, patch, demo, agent_meta, res):
             "confirmed": {k: res.get(k) for k in ("demo_passes_without", "demo_fails_with", "suite_passes_with")},
             "what_i_ran": ["scratch worktree of /repo HEAD: demo without the change (go test -vet=off -count=1 -run <demo>), "
                            "git apply patch.diff, demo again, go build ./... && go test -vet=off -count=1 ./...",
-                           "git -C /repo apply patch.diff; " + "; ".join("./check %s --tier quick" % c for c in res.get("checks", {}))
+                           "git -C /repo apply patch.diff; " + "; ".join("./check %s --tier %s" % (c.partition(":")[0], c.partition(":")[2] or "quick") for c in res.get("checks", {}))
                            + "; git -C /repo checkout -- ."],
             "checks": res.get("checks", {}), "repo_clean_after": res.get("repo_clean_after")}
     json.dump(meta, open(d + "/meta.json", "w"), indent=1)
